@@ -10,19 +10,19 @@ vars == <<st, env, res, hist>>
 MC_Own == 5
 MC_OwnP == [p1 |-> 128, p2 |-> 128]
 MC_Q0 == [class |-> 248, acc |-> 254, var |-> 65535]
-MC_TP0 == [utc |-> "null", leap |-> 0, tt |-> FALSE, ft |-> FALSE, ptp |-> FALSE, src |-> 160]
+MC_TP0 == [utc |-> NoUtc, leap |-> 0, tt |-> FALSE, ft |-> FALSE, ptp |-> FALSE, src |-> 160]
 E2E(mo, aml) == [p2p |-> FALSE, mo |-> mo, aml |-> aml, keep |-> 1]
 P2P(mo, aml) == [p2p |-> TRUE, mo |-> mo, aml |-> aml, keep |-> 1]
-PCfg_A == << E2E(FALSE, "any"), E2E(FALSE, "any") >>           \* plain boundary clock
-PCfg_B == << E2E(FALSE, "any"), E2E(TRUE, "any") >>            \* port 2 master-only
-PCfg_C == << E2E(FALSE, {2}), E2E(FALSE, "any") >>             \* port 1 accepts only master 2
-PCfg_D == << E2E(FALSE, "any"), P2P(FALSE, "any"), E2E(TRUE, "any") >>   \* three ports, one P2P, one master-only
-PCfg_E == << E2E(FALSE, "any") >>                              \* ordinary clock
+PCfg_A == << E2E(FALSE, AnyId), E2E(FALSE, AnyId) >>           \* plain boundary clock
+PCfg_B == << E2E(FALSE, AnyId), E2E(TRUE, AnyId) >>            \* port 2 master-only
+PCfg_C == << E2E(FALSE, {2}), E2E(FALSE, AnyId) >>             \* port 1 accepts only master 2
+PCfg_D == << E2E(FALSE, AnyId), P2P(FALSE, AnyId), E2E(TRUE, AnyId) >>   \* three ports, one P2P, one master-only
+PCfg_E == << E2E(FALSE, AnyId) >>                              \* ordinary clock
 
 Masters == {2, 9}
 GmOf(m) == IF m = 2 THEN <<127, 248, 254, 65535, 128, 2>> ELSE <<128, 248, 254, 65535, 128, 9>>
 TpOf(m) == IF m = 2 THEN [utc |-> 37, leap |-> 61, tt |-> TRUE, ft |-> TRUE, ptp |-> TRUE, src |-> 32]
-           ELSE [utc |-> "null", leap |-> 0, tt |-> FALSE, ft |-> FALSE, ptp |-> TRUE, src |-> 160]
+           ELSE [utc |-> NoUtc, leap |-> 0, tt |-> FALSE, ft |-> FALSE, ptp |-> TRUE, src |-> 160]
 Start(m) == IF m = 2 THEN 65534 ELSE 0
 
 Init == /\ st = Init0
